@@ -5,6 +5,7 @@ import (
 	"sort"
 	"strings"
 	"sync"
+	"sync/atomic"
 	"time"
 
 	"gosx/smt"
@@ -387,17 +388,21 @@ func (p *Path) FreshName(name string) string {
 // ---------- explorer ----------
 
 type Explorer struct {
-	mu      sync.Mutex
-	cond    *sync.Cond
-	stack   []WorkItem
-	active  int
-	stopped bool
-	pushed  int
-	lim     *Limits
+	okModels atomic.Bool // OK paths should fetch a model (for passing-path validation) until enough samples exist
+	mu       sync.Mutex
+	cond     *sync.Cond
+	stack    []WorkItem
+	active   int
+	stopped  bool
+	pushed   int
+	lim      *Limits
 }
+
+func (e *Explorer) wantOKModel() bool { return e.okModels.Load() }
 
 func newExplorer(lim *Limits) *Explorer {
 	e := &Explorer{lim: lim}
+	e.okModels.Store(true)
 	e.cond = sync.NewCond(&e.mu)
 	return e
 }
